@@ -30,11 +30,68 @@ func newExec(P *Program, L *Library) *Exec {
 			hdr := strings.Fields(rest[:i])
 			x.rawFuncs[hdr[0]] = hdr[1]
 			x.C.decl(strings.TrimSpace(rest[i+1:]))
+		} else if strings.HasPrefix(line, "when ") {
+			// "when sym1|sym2 : (assert ...)": a fact that is only added to the queries of functions whose
+			// obligations mention one of the symbols (keeps unrelated quantified facts out of other proofs)
+			rest := strings.TrimPrefix(line, "when ")
+			i := strings.Index(rest, ":")
+			x.cond = append(x.cond, condDecl{strings.Split(strings.TrimSpace(rest[:i]), "|"), strings.TrimSpace(rest[i+1:])})
 		} else {
 			x.C.decl(line)
 		}
 	}
 	return x
+}
+
+type condDecl struct {
+	syms []string
+	text string
+}
+
+// prelude: the declarations and assumed facts of this run, with the conditional facts whose symbols occur
+// in some obligation.
+func (x *Exec) prelude() string {
+	var b strings.Builder
+	b.WriteString(strings.Join(x.C.decls, "\n"))
+	b.WriteString("\n")
+	for _, c := range x.cond {
+		used := false
+		for _, sym := range c.syms {
+			pat := "(" + sym + " "
+			for _, o := range x.obls {
+				if strings.Contains(o.Goal, pat) {
+					used = true
+				}
+				for _, p := range o.PC {
+					if used {
+						break
+					}
+					if strings.Contains(p, pat) {
+						used = true
+					}
+				}
+				for _, d := range o.Defs {
+					if used {
+						break
+					}
+					if strings.Contains(d, pat) {
+						used = true
+					}
+				}
+				if used {
+					break
+				}
+			}
+			if used {
+				break
+			}
+		}
+		if used {
+			b.WriteString(c.text)
+			b.WriteString("\n")
+		}
+	}
+	return b.String()
 }
 
 // emit records one path-level instance of an obligation.
@@ -532,6 +589,7 @@ func (x *Exec) applyMods(st *State, pre *State, ms *modSet, full map[string]bool
 		for _, name := range hn {
 			x.havocHeap(st, name)
 		}
+		st.heaps["pending:*"] = "full" // heaps not touched so far are havocked at their first access
 	}
 	if ms.allocs || ms.all {
 		a := x.newSym(st, "alloc", "Int")
@@ -542,6 +600,19 @@ func (x *Exec) applyMods(st *State, pre *State, ms *modSet, full map[string]bool
 	for _, name := range names {
 		sortS, known := x.heapSort[name]
 		if !known {
+			// not touched anywhere so far: the havoc is recorded and takes effect at the first access
+			fr := pre.alloc
+			if full[name] || ms.full[name] || strings.HasPrefix(name, "G_") || ms.all {
+				fr = "full"
+			} else if ms.direct[name] {
+				top := x.top
+				if top == nil || top.con == nil || !top.con.HasAssigns || assignsAllows(top.con, name) {
+					fr = "full"
+				} else {
+					fr = x.alloc0
+				}
+			}
+			x.markPending(st, name, fr)
 			continue
 		}
 		old := st.heaps[name]
